@@ -310,17 +310,26 @@ class EObject(ENotifer, metaclass=Metasubinstance):
         for x in contents:
             yield from x.eAllContents()
 
+    def _position_in(self, collection):
+        # the position of this very object: another element may compare
+        # equal to it and come first
+        index = collection.index(self)
+        if collection[index] is not self:
+            index = next((i for i, x in enumerate(collection) if x is self),
+                         index)
+        return index
+
     def eURIFragment(self):
         if self.eContainer() is None:
             if not self.eResource or len(self.eResource.contents) == 1:
                 return '/'
             else:
-                return f'/{self.eResource.contents.index(self)}'
+                return f'/{self._position_in(self.eResource.contents)}'
         feat = self.eContainmentFeature()
         parent = self.eContainer()
         name = feat.name
         if feat.many:
-            index = parent.__getattribute__(name).index(self)
+            index = self._position_in(parent.__getattribute__(name))
             return f'{parent.eURIFragment()}/@{name}.{index}'
         else:
             return f'{parent.eURIFragment()}/@{name}'
@@ -349,7 +358,7 @@ class EModelElement(EObject):
             if not self.eResource or len(self.eResource.contents) == 1:
                 return '#/'
             else:
-                return f'#/{self.eResource.contents.index(self)}'
+                return f'#/{self._position_in(self.eResource.contents)}'
         parent = self.eContainer()
         if hasattr(self, 'name'):
             return f'{parent.eURIFragment()}/{self.name}'
